@@ -410,6 +410,8 @@ pub fn process_line(v: &Value, rep: &mut Report) {
     }
     rep.sample(json!({"steps": v["steps"], "meaning_add_loop": v["data"]}));
     for e in embeddings(&["E0", "E5"]) {
+        let r = std::panic::catch_unwind(std::panic::AssertUnwindSafe(|| {
+            let rep = &mut *rep;
         run_mom::<average::Mean>(&steps, v, &e, rep);
         run_mom::<average::Variance>(&steps, v, &e, rep);
         run_mom::<average::Skewness>(&steps, v, &e, rep);
@@ -422,6 +424,10 @@ pub fn process_line(v: &Value, rep: &mut Report) {
         run_pair::<average::WeightedMeanWithError>(&steps, v, &e, rep);
         run_pair::<average::Covariance>(&steps, v, &e, rep);
         run_concat(&steps, v, &e, rep);
+        }));
+        if r.is_err() {
+            viol(rep, "ingest", e.name, v, "panic", "the code under test panicked on an ingestion path".into());
+        }
     }
     for x in rep.violations.iter_mut().skip(kept_before) {
         x["line"] = v.clone();
